@@ -13,7 +13,9 @@ import (
 )
 
 const (
-	kfViewColumnList  = "C22-view-column-list-lost"
+	// SHOW CREATE VIEW prints only "CREATE VIEW name AS select": the column list and the
+	// ALGORITHM / DEFINER / SQL SECURITY clauses of the definition are lost
+	kfViewHeader      = "C22-view-header-lost"
 	kfViewCheckOption = "C22-view-with-check-option-truncated"
 	kfViewNameTick    = "C22-view-name-backtick-unescaped"
 )
@@ -68,7 +70,9 @@ type viewDef struct {
 	Kinds   map[string]bool
 	ColList []string
 	CheckOp string
-	Replace bool
+	// HeaderOpt: the definition has an ALGORITHM / DEFINER / SQL SECURITY clause
+	HeaderOpt bool
+	Replace   bool
 }
 
 func (v *viewDef) kind(k string) { v.Kinds[k] = true }
@@ -206,21 +210,29 @@ func drawView(rt *rapid.T, noColList, noCheckOpt, noNameTick bool, exclude func(
 	}
 
 	// header
+	headerOpt := func() bool {
+		if noColList {
+			exclude("view-header-option")
+			return false
+		}
+		v.HeaderOpt = true
+		return true
+	}
 	hdr := kws("CREATE")
 	if rapid.IntRange(0, 3).Draw(rt, "replace") == 0 {
 		hdr = cat(hdr, kws("OR REPLACE"))
 		v.Replace = true
 		v.kind("or-replace")
 	}
-	if rapid.IntRange(0, 4).Draw(rt, "algo") == 0 {
+	if rapid.IntRange(0, 4).Draw(rt, "algo") == 0 && headerOpt() {
 		hdr = cat(hdr, kws("ALGORITHM"), raw("="), kws(rapid.SampledFrom([]string{"UNDEFINED", "MERGE", "TEMPTABLE"}).Draw(rt, "algov")))
 		v.kind("algorithm")
 	}
-	if rapid.IntRange(0, 4).Draw(rt, "definer") == 0 {
+	if rapid.IntRange(0, 4).Draw(rt, "definer") == 0 && headerOpt() {
 		hdr = cat(hdr, kws("DEFINER"), raw("=", rapid.SampledFrom([]string{"`root`@`localhost`", "CURRENT_USER", "'root'@'localhost'"}).Draw(rt, "definerv")))
 		v.kind("definer")
 	}
-	if rapid.IntRange(0, 4).Draw(rt, "security") == 0 {
+	if rapid.IntRange(0, 4).Draw(rt, "security") == 0 && headerOpt() {
 		hdr = cat(hdr, kws("SQL SECURITY"), kws(rapid.SampledFrom([]string{"DEFINER", "INVOKER"}).Draw(rt, "securityv")))
 		v.kind("sql-security")
 	}
@@ -347,15 +359,15 @@ func viewBattery(s *fx.Sess, name string) []probeResult {
 func TestC22View(t *testing.T) {
 	st := stats.New("C22", "view")
 	defer st.Flush()
-	noColList, noCheckOpt, noNameTick := kf.Listed(kfViewColumnList), kf.Listed(kfViewCheckOption), kf.Listed(kfViewNameTick)
+	noColList, noCheckOpt, noNameTick := kf.Listed(kfViewHeader), kf.Listed(kfViewCheckOption), kf.Listed(kfViewNameTick)
 	rapid.Check(t, func(rt *rapid.T) {
 		st.Eval()
 		v := drawView(rt, noColList, noCheckOpt, noNameTick, st.Excluded)
 		create := renderToks(rt, v)
 		preexisting := v.Replace && rapid.Bool().Draw(rt, "preexisting")
 		var sigs []string
-		if len(v.ColList) > 0 {
-			sigs = append(sigs, kfViewColumnList)
+		if len(v.ColList) > 0 || v.HeaderOpt {
+			sigs = append(sigs, kfViewHeader)
 		}
 		if v.CheckOp != "" {
 			sigs = append(sigs, kfViewCheckOption)
